@@ -125,7 +125,13 @@ var urlAtoms = []string{" ", "%", "/", "?", "#", "&", "=", "+", "@", ";", ",", "
 
 func drawURLString(t *rapid.T, label string, allowColon bool) string {
 	var s string
-	switch rapid.IntRange(0, 15).Draw(t, label+"K") {
+	switch rapid.IntRange(0, 17).Draw(t, label+"K") {
+	case 16, 17: // a token the library's own templates, format strings or splitters are written with, alone or inside other text
+		tok := rapid.SampledFrom(sourceFragments()).Draw(t, label+"TF")
+		if lits := sourceLiterals(); len(lits) > 0 && rapid.IntRange(0, 2).Draw(t, label+"TL") == 0 {
+			tok = rapid.SampledFrom(lits).Draw(t, label+"TLit")
+		}
+		s = rapid.SampledFrom([]string{"", "", "x", "a ", "{"}).Draw(t, label+"TP") + tok + rapid.SampledFrom([]string{"", "", "y", " b", "}"}).Draw(t, label+"TS")
 	case 15: // long
 		n := rapid.IntRange(20, 120).Draw(t, label+"LN")
 		var sb strings.Builder
